@@ -1,6 +1,7 @@
 package main
 
 import (
+	"bytes"
 	"fmt"
 	"math"
 	"reflect"
@@ -49,10 +50,13 @@ func (h topkRedis) Values() ([]heapDoc, error) {
 func (h topkRedis) Export() ([]byte, error) { return h.t.Export() }
 
 // topkMulti: operations of a Redis Top-K go through the creating handle or re-attached ones
-type topkMulti struct{ hs []topkRedis }
+type topkMulti struct {
+	hs     []topkRedis
+	frozen bool
+}
 
 func (m *topkMulti) pick() topkRedis {
-	if len(m.hs) < 3 && multiRng.Intn(6) == 0 {
+	if !m.frozen && len(m.hs) < 3 && multiRng.Intn(6) == 0 {
 		if t := gostatix.NewTopKRedisFromKey(m.hs[0].t.MetadataKey()); t != nil {
 			m.hs = append(m.hs, topkRedis{t})
 		}
@@ -180,6 +184,10 @@ func topkCase(c *Ctx, k uint, er, acc float64, redis bool) {
 	replayOf := func() interface{} {
 		return map[string]interface{}{"config": cfg, "pool": poolHex(pool), "history": hist}
 	}
+	moveAt := -1
+	if c.rng.Intn(3) == 0 {
+		moveAt = 1 + c.rng.Intn(nops)
+	}
 	exact := true // every estimate so far equalled the true total (no effective collision)
 	for opn := 0; opn < nops; opn++ {
 		j := c.rng.Intn(len(pool))
@@ -187,6 +195,26 @@ func topkCase(c *Ctx, k uint, er, acc float64, redis bool) {
 			j = c.rng.Intn(min(len(pool), int(k)+1)) // favour a few keys: ties and re-admissions
 		}
 		cnt := counts[c.rng.Intn(len(counts))]
+		if opn > 0 && opn == moveAt {
+			// the history continues on a restored copy: in memory, the image or the document of the
+			// structure read into a handle that has tracked other elements before; on Redis, the
+			// document exported through a handle attached a moment ago (which has inserted
+			// nothing itself) and imported under new keys
+			nt, how, merr := topkMove(c, t, redis)
+			c.branch("moved-" + how)
+			if merr != nil || nt == nil {
+				c.fail([]string{"C04", "C10", "C11"}, "topk-move-fails", fmt.Sprintf("%s: %s of the structure's own image failed: %v", cfg, how, merr), replayOf())
+				return
+			}
+			a, e1 := parseTopK(t.Export())
+			b, e2 := parseTopK(nt.Export())
+			if e1 != nil || e2 != nil || heapStr(a.H) != heapStr(b.H) || matrixStr(a.S.M) != matrixStr(b.S.M) || a.K != b.K {
+				c.fail([]string{"C04", "C10", "C11"}, "topk-move-differs", fmt.Sprintf("%s: the copy made by %s differs from the original (heap %s vs %s)", cfg, how, heapStr(a.H), heapStr(b.H)), replayOf())
+				return
+			}
+			t = nt
+			hist = append(hist, "moved:"+how)
+		}
 		pre, err := parseTopK(t.Export())
 		if err != nil {
 			c.fail([]string{"C04"}, "topk-export", err.Error(), cfg)
@@ -319,6 +347,60 @@ func topkCase(c *Ctx, k uint, er, acc float64, redis bool) {
 		hist = hist[:10]
 	}
 	c.sample(map[string]interface{}{"config": cfg, "history_prefix": hist})
+}
+
+// topkMove: a copy of the structure behind t, made through persistence, to continue the history on
+func topkMove(c *Ctx, t topkHandle, redis bool) (topkHandle, string, error) {
+	if redis {
+		m := t.(*topkMulti)
+		via := gostatix.NewTopKRedisFromKey(m.hs[0].t.MetadataKey())
+		if via == nil {
+			return nil, "Export-through-attached-handle+Import", fmt.Errorf("attach failed")
+		}
+		doc, err := via.Export()
+		if err != nil {
+			return nil, "Export-through-attached-handle+Import", err
+		}
+		nt := gostatix.NewTopKRedis(2, 0.7, 0.3)
+		if nt == nil {
+			return nil, "Export-through-attached-handle+Import", fmt.Errorf("constructor failed")
+		}
+		if c.rng.Intn(2) == 0 {
+			nt.Insert([]byte("previous tenant"), 3)
+		}
+		var ierr error
+		res := safely(func() { ierr = nt.Import(doc, true) })
+		if res.panicked {
+			ierr = fmt.Errorf("panic: %s", res.panicVal)
+		}
+		return topkRedis{nt}, "Export-through-attached-handle+Import", ierr
+	}
+	src := t.(topkMem).t
+	nt := gostatix.NewTopK(2+uint(c.rng.Intn(3)), 0.7, 0.3)
+	for i := 0; i < 3; i++ {
+		nt.Insert([]byte(fmt.Sprintf("previous tenant %d", i)), uint64(1+i))
+	}
+	nt.Values()
+	var err error
+	how := "Export+Import-into-used-handle"
+	res := safely(func() {
+		if c.rng.Intn(2) == 0 {
+			how = "WriteTo+ReadFrom-into-used-handle"
+			var buf bytes.Buffer
+			if _, err = src.WriteTo(&buf); err == nil {
+				_, err = nt.ReadFrom(&buf)
+			}
+			return
+		}
+		var doc []byte
+		if doc, err = src.Export(); err == nil {
+			err = nt.Import(doc)
+		}
+	})
+	if res.panicked {
+		err = fmt.Errorf("panic: %s", res.panicVal)
+	}
+	return topkMem{nt}, how, err
 }
 
 func min(a, b int) int {
